@@ -22,10 +22,17 @@ inductive Outcome (α : Type) where
 def lessThanN {V F : Type} [LT V] [DecidableLT V] [Div F] (toF : V → F) (n value : V) : Bool × F :=
   (decide (value < n), toF value / toF n)
 
-/-! ### EveryN  (common.rs:251-260):  `Ok(value % self.n == 0)` on `u32`; `% 0` panics. -/
+/-! ### EveryN  (common.rs:251-261), on `u32`:
+`Ok(value.checked_rem(self.n).map_or(value == 0, |rem| rem == 0))` -/
 
-def everyN (n value : Nat) : Outcome Bool :=
-  if n = 0 then .panic else .ok (value % n == 0)
+/-- `u32::checked_rem`: `None` for a zero divisor. -/
+def checkedRem (value n : Nat) : Option Nat :=
+  if n = 0 then none else some (value % n)
+
+def everyN (n value : Nat) : Bool :=
+  match checkedRem value n with
+  | none => value == 0
+  | some rem => rem == 0
 
 /-! ### OptimumReached  (common.rs:466-498) -/
 
